@@ -217,10 +217,11 @@ fn main() {
     res.cov("helper_granularity_schedules", *stats.get("fine_executions").unwrap_or(&0));
     res.cov("helper_granularity_steps", *stats.get("fine_steps").unwrap_or(&0));
     res.cov("helper_granularity_preemption_bound_reached", *stats.get("fine_max_preemptions").unwrap_or(&0));
+    res.cov("bound_socket_connects", *stats.get("bound_socket_connects").unwrap_or(&0));
     res.cov("connects_not_judged_policy_changed_between_hooks", *stats.get("connects_not_judged_policy_changed_between_hooks").unwrap_or(&0));
     res.cov("audit_patterns_decoded_by_the_real_agent_code", decoded);
     res.cov("exhaustive", true);
-    res.cov("rule", "configurations: policy in {all three endpoints, WireServer only, WireServer+HostGA, (thorough) none} x pairs (thorough: also triples) of threads from {agent main thread, an agent worker thread, uid0/gid0, uid0/gid1000, uid1000/gid0, uid1000/gid1000, a second thread of that process} x 1 (thorough: 2) connects each to {WS:80, WS:32526, IMDS:80, WS:81, 10.0.0.1:80} x {TCP, UDP}; thorough adds one policy toggle and one connect aborted between the hooks as environment events; per configuration BFS over all interleavings of connect4 / tcp_connect invocations (hook-atomic), deduplicated on (map contents, thread program counters, in-flight ctx, policy); plus, for the two-thread configurations without environment events, a stateless preemption-bounded DFS (bound 2, thorough 3) in which every helper call of a hook is a scheduling point (hooks run as coroutines and are switched before each helper executes), every schedule re-executed from the initial maps; model traces are bound to the implementation by the kernel-map round trips (policy/skip bytes written by the real Rust code are the model's input, audit bytes produced by the model are decoded by the real Rust code)".to_string());
+    res.cov("rule", "configurations: policy in {all three endpoints, WireServer only, WireServer+HostGA, (thorough) none} x pairs (thorough: also triples) of threads from {agent main thread, an agent worker thread, uid0/gid0, uid0/gid1000, uid1000/gid0, uid1000/gid1000, a second thread of that process} x 1 (thorough: 2) connects each to {WS:80, WS:32526, IMDS:80, WS:81, 10.0.0.1:80} x {TCP, UDP}; thorough adds one policy toggle and one connect aborted between the hooks as environment events; plus every policy x identity x destination with the caller's socket bound to a local address (10.0.0.4) before the connect; per configuration BFS over all interleavings of connect4 / tcp_connect invocations (hook-atomic), deduplicated on (map contents, thread program counters, in-flight ctx, policy); plus, for the two-thread configurations without environment events, a stateless preemption-bounded DFS (bound 2, thorough 3) in which every helper call of a hook is a scheduling point (hooks run as coroutines and are switched before each helper executes), every schedule re-executed from the initial maps; model traces are bound to the implementation by the kernel-map round trips (policy/skip bytes written by the real Rust code are the model's input, audit bytes produced by the model are decoded by the real Rust code)".to_string());
     res.sample(json!({"policy_entries_written_by_the_agent_code": input.lines().collect::<Vec<_>>()}));
     if let Some(a) = audits.first() {
         res.sample(json!({"audit_pattern_from_the_model": a}));
